@@ -80,7 +80,7 @@ PHARMPY_KNOWN = {
 # ------------------------------------------------------------------------------------------
 # specs
 
-XFLAGS = ['theta_inf', 'scaled_blocks', 'abbr_replace', 'abbr_opt', 'table', 'table_unsorted', 'cov', 'sizes', 'title_comment']
+XFLAGS = ['theta_inf', 'scaled_blocks', 'abbr_replace', 'abbr_opt', 'table', 'table_unsorted', 'cov', 'sizes', 'title_comment', 'block_repeat', 'second_problem']
 # extra records / shapes of the generated text; each is on in half of the cases, `$ABBR REPLACE` in a quarter
 X = st.fixed_dictionaries({f: (st.sampled_from([False, False, False, True]) if f == 'abbr_replace' else st.booleans()) for f in XFLAGS})
 MODEL_SPEC = st.one_of(c01.PRED_SPEC, c01.ADVAN_SPEC)
@@ -186,11 +186,42 @@ def build_stream(spec, pool):
         else:
             tail.append('$TABLE ID TIME NOAPPEND NOPRINT FILE=patab1')
         used.append('table')
+    if x.get('block_repeat'):
+        # BLOCK records whose value list has a (v)xn item followed by further values (extra, unused etas/eps)
+        var = m['vals'][1] % 3 if m.get('vals') and len(m['vals']) > 1 else 0
+        kd = [None] * len(lines)
+        cur = None
+        for i, ln in enumerate(lines):
+            nm = S.record_start(ln)
+            if nm is not None:
+                cur = R.canonical_record_name(nm)
+            kd[i] = cur
+        if var == 2:
+            pos = next(i for i, k in enumerate(kd) if k == 'ESTIMATION')
+            lines[pos:pos] = ['$SIGMA BLOCK(2)', '(0.04)x2', '0.09 ; after the repeat']
+        else:
+            pos = next(i for i, k in enumerate(kd) if k == 'SIGMA')
+            lines[pos:pos] = [['$OMEGA BLOCK(3)', ' 0.2 ; IIV_A', ' 0.05 0.2', ' (0.01)x2 0.3  ; covariances, IIV_C'], ['$OMEGA BLOCK(2) (0.1)x2 0.3']][var]
+        used.append('block_repeat')
     if lines and lines[-1] == '':
         lines[-1:-1] = tail
     else:
         lines += tail
     text = '\n'.join(lines)
+    if x.get('second_problem'):
+        # a second $PROBLEM (simulation from the MSF of the first) repeating $INPUT, $DATA, $SUBROUTINES, $ABBR and
+        # the code records verbatim
+        recs = S.split_exact(text if text.endswith('\n') else text + '\n')
+        keep = ('INPUT', 'DATA', 'SUBROUTINES', 'ABBREVIATED', 'PRED', 'PK', 'ERROR')
+        second = ['$PROBLEM simulate with the final estimates\n']
+        for r in recs:
+            if r.kind in keep:
+                second.append(r.text)
+                if r.kind == 'DATA':
+                    second.append('$MSFI run1.msf\n')
+        second += ['$SIMULATION (1234) ONLYSIMULATION\n', '$TABLE ID TIME DV NOAPPEND NOPRINT FILE=simtab1\n']
+        text = (text if text.endswith('\n') else text + '\n') + ''.join(second)
+        used.append('second_problem')
     if crlf:
         text = text.replace('\n', '\r\n')
     text = N.apply_ops(text, spec.get('ops') or [], pool)
@@ -469,10 +500,37 @@ def _is_subsequence(small, big):
     return all(any(x == y for y in it) for x in small)
 
 
+def split_problems(recs):
+    """record list -> (records up to the second $PROBLEM, records from the second $PROBLEM on)"""
+    seen = 0
+    for i, (k, _) in enumerate(recs):
+        if k == 'PROBLEM':
+            seen += 1
+            if seen == 2:
+                return recs[:i], recs[i:]
+    return recs, []
+
+
 def frame_condition(before, after, may_change, label):
-    """records of kinds outside may_change: byte-identical, same relative order"""
-    rb = [(k, t) for k, t in record_list(before) if k not in may_change]
-    ra = [(k, t) for k, t in record_list(after) if k not in may_change]
+    """records of kinds outside may_change: byte-identical, same relative order.  The model is the first
+    $PROBLEM: whatever the edit, every record from the second $PROBLEM on stays as and where it is."""
+    b1, b2 = split_problems(record_list(before))
+    a1, a2 = split_problems(record_list(after))
+    if b2 != a2:
+        for i in range(max(len(b2), len(a2))):
+            x = b2[i] if i < len(b2) else None
+            y = a2[i] if i < len(a2) else None
+            if x != y:
+                what = 'changed' if (x and y and x[0] == y[0]) else ('lost' if x is not None and x not in a2 else 'added-or-moved')
+                kind = y[0] if (what == 'added-or-moved' and y is not None) else (x or y)[0]
+                raise Violation(
+                    f'frame:second-problem:{kind}:record-{what}:{label.split(":", 1)[-1]}',
+                    observed=y[1] if y else None,
+                    expected=x[1] if x else None,
+                    detail=f'records from the second $PROBLEM on must not change\n--- before\n{before}\n--- after\n{after}',
+                )
+    rb = [(k, t) for k, t in b1 if k not in may_change]
+    ra = [(k, t) for k, t in a1 if k not in may_change]
     if rb == ra:
         return
     for i in range(max(len(rb), len(ra))):
@@ -1081,7 +1139,11 @@ def _pred_dvid_model(spec):
     return any(r.kind == 'ERROR' and re.search(r'(?i)DVID\s*\.EQ\.', r.text) for r in S.split_exact(text))
 
 
-KNOWN_PREDICATES = {'dvid_model': _pred_dvid_model, 'des_model': _pred_des_model, 'record_glued_after_omega_remove': _pred_glued}
+def _pred_second_problem(spec):
+    return bool((spec.get('x') or {}).get('second_problem'))
+
+
+KNOWN_PREDICATES = {'second_problem': _pred_second_problem, 'dvid_model': _pred_dvid_model, 'des_model': _pred_des_model, 'record_glued_after_omega_remove': _pred_glued}
 
 
 def selfcheck():
